@@ -235,6 +235,7 @@ type runState struct {
 	initPhase bool
 	callCounts map[string]int
 	sepFree    map[string]bool // SMT variables known to contain no path separator (digests)
+	class      string          // classification of the next violation, set by the harness (sym.Class)
 }
 
 func newSolver(cmd []string) (*smt.Solver, error) { return smt.NewSolver(cmd...) }
@@ -473,6 +474,9 @@ func (r *runState) report(v *Violation) {
 		}
 	}
 	v.Sched = append([]string(nil), r.schedLog...)
+	if v.Class == "" && r.class != "" {
+		v.Class = r.class
+	}
 	if v.Class == "" {
 		// schedule-dependent violations are classified by the operation before which the first
 		// preemption happened (the window that was hit)
@@ -741,7 +745,7 @@ func (e *Explorer) runPath(w *Worker, prefix []Decision, entryFn func(w *Worker)
 	switch end.kind {
 	case endUnsupported:
 		key := end.msg
-		if i := strings.Index(key, "\ngoroutine "); i > 0 {
+		if i := strings.Index(key, "\n"); i > 0 {
 			if len(e.Unsupported) < 3 {
 				fmt.Fprintln(os.Stderr, "gosym: unsupported path detail:", key)
 			}
